@@ -16,7 +16,7 @@ DEFAULT_PROFILE = {
     "p_late_ifthen_leaf": 0.06, "p_dup_listing": 0.08,
     "p_rule_rename_chain": 0.07, "p_ifthen_feature_cond": 0.07, "p_empty_blockallow": 0.07, "p_rule_export_escape": 0.07,
     "p_optsrc_same_guard": 0.07, "p_subdirs_later_doc": 0.06, "p_shadowed_provider": 0.07, "p_two_patched_downloads": 0.05, "p_custom_build_no_out": 0.04, "p_cli_comma_define": 0.05, "p_self_named_unique": 0.05, "p_defaults_uses_removed": 0.05, "p_app_custom_build": 0.04, "p_same_dldir_downloads": 0.04,
-    "p_desc_with_builder": 0.05, "p_srcdir_in_root_download": 0.04, "p_provided_name_is_module": 0.05, "p_download_with_srcdir": 0.04,
+    "p_desc_with_builder": 0.05, "p_srcdir_in_root_download": 0.04, "p_provided_name_is_module": 0.05, "p_download_with_srcdir": 0.04, "p_task_killed": 0.0,
     "p_cycle": 0.02, "p_task_fail": 0.0, "p_root_noenv": 0.06, "p_out_per_builder": 0.3, "p_same_override": 0.15, "p_hard_missing": 0.03, "p_app_elsewhere": 0.25,
 }
 
@@ -410,7 +410,9 @@ def sibling_args(a, rng):
     if b.get("select"):
         opts += ["sel-kind", "sel-to-disable"] + (["sel-order"] if len(b["select"]) > 1 and b["select"] != b["select"][::-1] else [])
     if b.get("disable"):
-        opts += ["dis-to-select"]
+        opts += ["dis-to-select", "dis-drop"]
+    if b.get("select"):
+        opts += ["sel-drop"]
     if b.get("define"):
         opts += ["def-kind", "def-drop"]
     if b.get("builders") and len(b["builders"]) > 1:
@@ -450,6 +452,14 @@ def sibling_args(a, rng):
         b["select"] = list(b.get("select") or []) + ["?" + x]
         if not b["disable"]:
             del b["disable"]
+    elif how == "dis-drop":
+        b["disable"].pop(rng.randrange(len(b["disable"])))
+        if not b["disable"]:
+            del b["disable"]
+    elif how == "sel-drop":
+        b["select"].pop(rng.randrange(len(b["select"])))
+        if not b["select"]:
+            del b["select"]
     elif how == "def-kind":
         i = rng.randrange(len(b["define"]))
         d = b["define"][i]
